@@ -504,6 +504,7 @@ pub fn dml_menu(kind: Kind, thorough: bool) -> Vec<DOp> {
         m.push(DOp::Where(CondS::Any(vec![])));
         m.push(DOp::Where(CondS::All(vec![])));
         m.push(DOp::Where(CondS::One(XS::InSub(bx(XS::Col("b")), bx(r[0].clone())))));
+        m.push(DOp::Where(CondS::One(XS::InSub(bx(XS::Col("id")), bx(r[4].clone())))));
     };
     let returning = |m: &mut Vec<DOp>| {
         m.push(DOp::Returning(RetSpec::All));
@@ -559,6 +560,7 @@ pub fn dml_menu(kind: Kind, thorough: bool) -> Vec<DOp> {
             m.push(DOp::Set("b", XS::Bin(BOp::Add, bx(XS::Col("a")), bx(iv(3011)))));
             m.push(DOp::Set("s", XS::Val(V::Str("u'p".into()))));
             m.push(DOp::Set("b", XS::TCol("t2", "c")));
+            m.push(DOp::Set("a", iv(3002)));
             m.push(DOp::From("t2"));
             m.push(DOp::From("t3"));
             m.push(DOp::Where(CondS::One(XS::Bin(BOp::Eq, bx(XS::TCol("t2", "t1_id")), bx(XS::TCol("t1", "id"))))));
@@ -604,7 +606,8 @@ impl Model for DmlModel {
                 DOp::SelectFrom(q) => q.items.len() == r.cols.len() && r.rows.is_empty() && r.select.is_none(),
                 DOp::OrDefaultValues => !r.default_values,
                 DOp::OnConflict(_) => r.on_conflict.is_none(),
-                DOp::Set(c, _) => r.sets.len() < 2 && !r.sets.iter().any(|(x, _)| x == c),
+                // a column may be assigned twice (with different expressions): every `value` call appends an assignment
+                DOp::Set(c, e) => r.sets.len() < 2 && !r.sets.iter().any(|(x, y)| x == c && format!("{:?}", y) == format!("{:?}", e)),
                 DOp::From(_) => r.from.len() < 2,
                 DOp::Where(_) => r.wheres.len() < 2,
                 DOp::Order(..) => r.orders.len() < 2,
